@@ -92,7 +92,7 @@ pub fn check_json(ctx: &Ctx, frame: &[u8]) -> Check {
 }
 
 pub fn run(ctx: &Ctx) {
-    ctx.set_rule("the finite shape space (DF 0..31 x CA/CF x TC 0..31 x subtype x ADS-B version x Comm-B register template x extreme-fill mode; list in vcheck/src/frames.rs::base_shapes) is enumerated completely with K random fills per shape, plus everything the C01 generators accept. Oracle: serde_json::to_string is Ok, one line, parses as one object with a duplicate-rejecting reader, Debug shows no NaN/inf, df/icao24 equal the DF bits and the address carried (AA field or independent CRC overlay), TimedMessage keeps the frame as hex and re-decoding that hex gives the same fields; batches of frames also go through the real decode1090 binary (which unwraps to_string) in argument and file mode: no abort, the library's JSON line per frame / a well-formed record that keeps timestamp, frame and every decoded field; related frames in several orders on one thread serialise identically each time. Non-trivial = accepted frame (distinct by bytes); distinct accepted shapes are reported separately.");
+    ctx.set_rule("the finite shape space (DF 0..31 x CA/CF x TC 0..31 x subtype x ADS-B version x Comm-B register template x extreme-fill mode; list in vcheck/src/frames.rs::base_shapes) is enumerated completely with K random fills per shape, plus everything the C01 generators accept. Oracle: serde_json::to_string is Ok, one line, parses as one object with a duplicate-rejecting reader, Debug shows no NaN/inf, df/icao24 equal the DF bits and the address carried (AA field or independent CRC overlay), TimedMessage keeps the frame as hex and re-decoding that hex gives the same fields; batches of frames also go through the real decode1090 binary (which unwraps to_string) in argument and file mode: no abort, the library's JSON line per frame / a well-formed record that keeps timestamp, frame and every decoded field; related frames in several orders on one thread serialise identically each time; every base shape and generated batches of accepted frames are served to the real jet1090 binary over TCP (it ignores a failed to_string): each must be printed as exactly one well-formed line that keeps the frame and every decoded field, and the process must survive. Non-trivial = accepted frame (distinct by bytes); distinct accepted shapes are reported separately.");
     ctx.assume("address of AP formats = remainder of the frame modulo the generator polynomial (independent CRC)");
     // 1. exhaustive shape space x K fills
     let shapes = base_shapes();
@@ -139,7 +139,7 @@ pub fn run(ctx: &Ctx) {
     drive(ctx, &suite, &|f| check_json(ctx, f));
     // 2b. the record is a function of the frame only ("decoding that hex again gives the same fields"): related frames
     //     in several orders on one thread must serialise identically each time
-    drive_families_with(ctx, "c07", ctx.tier.pick(120_000, 1_600_000), &json_observable, Some(&|f| check_json(ctx, f)));
+    drive_families_with(ctx, "c07", ctx.tier.pick(48_000, 1_600_000), &json_observable, Some(&|f| check_json(ctx, f)));
     // 2c. decode1090 unwraps to_string: batches of generated frames through the real binary, both input modes
     match std::env::var("DECODE1090_BIN") {
         Ok(bin) => {
@@ -168,6 +168,37 @@ pub fn run(ctx: &Ctx) {
         }
         Err(_) => {
             eprintln!("INCONCLUSIVE: DECODE1090_BIN is not set (run through ./check)");
+            std::process::exit(2);
+        }
+    }
+    // 2d. jet1090 swallows a failed to_string: every base shape and generated batches through the real binary
+    match crate::e2e::Env::from_env() {
+        Some(env) => {
+            use proptest::prelude::*;
+            let all: Vec<Vec<u8>> = shapes.iter().enumerate().map(|(i, sh)| {
+                let mut r = SplitMix::new(h64(&(ctx.seed, "c07-e2e", i)));
+                let mut fill = [0u8; 14];
+                for b in fill.iter_mut() {
+                    *b = r.next() as u8;
+                }
+                build(sh, &fill, r.next())
+            }).collect();
+            let chunks: Vec<&[Vec<u8>]> = all.chunks(96).collect();
+            let fails: Vec<Failure> = chunks.par_iter().enumerate().filter_map(|(i, c)| check_e2e(ctx, &env, c, &format!("c07-shapes-{i}")).err()).collect();
+            let mut seen = std::collections::BTreeSet::new();
+            for f in fails {
+                if seen.insert(f.signature.clone()) {
+                    ctx.judge(Err(f));
+                }
+            }
+            ctx.class_n("base shapes through the real jet1090 binary", all.len() as u64);
+            let n = ctx.tier.pick(32u32, 480u32);
+            (0..16u32).into_par_iter().for_each(|s| {
+                vcore::ev::run_prop_shrink(ctx, &format!("e2e-{s}"), n / 16, 12, proptest::collection::vec(vcore::gen::frame().prop_map(|(_, f)| f), 1..80), |frames| check_e2e(ctx, &env, frames, &format!("c07-{s}")));
+            });
+        }
+        None => {
+            eprintln!("INCONCLUSIVE: JET1090_BIN / VERIF_E2E_CACHE are not set (run through ./check)");
             std::process::exit(2);
         }
     }
@@ -276,6 +307,68 @@ pub fn check_cli(ctx: &Ctx, bin: &str, frames: &[Vec<u8>]) -> Check {
     Ok(())
 }
 
+/// End to end: jet1090 ignores a failed `to_string` (crates/jet1090/src/main.rs: the record is silently not printed).
+/// Distinct accepted frames of every shape are served to the real binary over TCP; each must come out as exactly one
+/// well-formed line that keeps the frame and contains every field of the library's decoding (an ambiguous BDS 5,0 /
+/// 6,0 pair may be withdrawn, a position may be added).
+pub fn check_e2e(ctx: &Ctx, env: &crate::e2e::Env, frames: &[Vec<u8>], tag: &str) -> Check {
+    ctx.eval();
+    let mut seen = std::collections::BTreeSet::new();
+    let accepted: Vec<Vec<u8>> = frames.iter().filter(|f| Message::try_from(f.as_slice()).is_ok() && seen.insert((*f).clone())).cloned().collect();
+    let sc = crate::e2e::Scenario {
+        references: vec![Some((48.0, 7.0))],
+        sends: accepted.iter().enumerate().map(|(i, f)| crate::e2e::Send { source: 0, frame: f.clone(), pause_ms: (i % 4 == 3) as u32, cut: 0 }).collect(),
+        dedup_ms: 40,
+        ..Default::default()
+    };
+    let rep = json!({"kind": "e2e", "scenario": crate::e2e::scenario_json(&sc)});
+    replay_e2e(ctx, env, &sc, &rep, tag)
+}
+
+pub fn replay_e2e(ctx: &Ctx, env: &crate::e2e::Env, sc: &crate::e2e::Scenario, rep: &Value, tag: &str) -> Check {
+    let fail = |sig: &str, d: String| Failure::new(format!("c07:e2e:{sig}"), d, rep.clone());
+    let out = match crate::e2e::play_twice(env, sc, tag) {
+        Err(crate::e2e::Fail::Skip(why)) => {
+            ctx.exclude(&format!("end-to-end scenario not judged: {}", why.split(':').next().unwrap_or("")));
+            return Ok(());
+        }
+        Err(crate::e2e::Fail::Died(why)) => return Err(fail("jet1090-died", format!("jet1090 {why} (twice)"))),
+        Ok(out) => out,
+    };
+    let mut lines: std::collections::BTreeMap<String, Vec<J>> = Default::default();
+    for l in &out.lines {
+        let j = jsonck::parse(l).map_err(|e| fail("malformed-line", format!("{e}: {l}")))?;
+        let f = j.get("frame").and_then(|x| x.as_str()).unwrap_or("").to_string();
+        lines.entry(f).or_default().push(j);
+    }
+    for s in &sc.sends {
+        let Ok(m) = Message::try_from(s.frame.as_slice()) else { continue };
+        let h = hex::encode(&s.frame);
+        let Some(ls) = lines.get(&h) else {
+            let tag = shape_tag(&s.frame);
+            return Err(fail(&format!("record-not-printed:{tag}"), format!("jet1090 printed nothing for the accepted frame {h} ({})", serde_json::to_string(&m).unwrap_or_else(|e| format!("the library cannot serialise it either: {e}")))));
+        };
+        if ls.len() != 1 {
+            return Err(fail("record-printed-more-than-once", format!("{} lines for frame {h}", ls.len())));
+        }
+        let want = jsonck::parse(&serde_json::to_string(&m).map_err(|e| fail("library-cannot-serialise", e.to_string()))?).map_err(|e| fail("library-malformed", e))?;
+        if let (J::Obj(have), J::Obj(want)) = (&ls[0], &want) {
+            let both = want.iter().any(|(k, _)| k == "bds50") && want.iter().any(|(k, _)| k == "bds60");
+            for (k, v) in want {
+                if both && (k == "bds50" || k == "bds60") {
+                    continue;
+                }
+                if !have.iter().any(|(k2, v2)| k == k2 && v == v2) {
+                    return Err(fail("field-lost-or-changed", format!("frame {h}: key {k} of the library's decoding is not in the line jet1090 printed")));
+                }
+            }
+        }
+    }
+    ctx.class("end-to-end batch judged");
+    ctx.nontrivial(h64(&("e2e", rep.to_string())));
+    Ok(())
+}
+
 /// The JSON a consumer sees for one input: the serialised timed record, or why there is none.
 pub fn json_observable(f: &[u8]) -> String {
     catch(|| match Message::try_from(f) {
@@ -291,6 +384,15 @@ pub fn json_observable(f: &[u8]) -> String {
 pub fn replay(ctx: &Ctx, v: &Value) {
     if v["kind"] == "family" {
         return replay_family(ctx, "c07", v, &json_observable);
+    }
+    if v["kind"] == "e2e" {
+        let Some(env) = crate::e2e::Env::from_env() else {
+            eprintln!("INCONCLUSIVE: JET1090_BIN / VERIF_E2E_CACHE are not set (replay through ./check)");
+            std::process::exit(2);
+        };
+        ctx.eval();
+        ctx.judge(replay_e2e(ctx, &env, &crate::e2e::scenario_of(&v["scenario"]), v, "c07-replay"));
+        return;
     }
     if v["kind"] == "cli" {
         let Ok(bin) = std::env::var("DECODE1090_BIN") else {
